@@ -116,6 +116,13 @@ def impl_algebra_op(line):
             b = parse_ploc(tk)
             ty = DIST[tk.next()]
             return f"ok {a.distance_to(b, ty)}"
+        if op == "eqhash":
+            a = parse_ploc(tk)
+            b = parse_ploc(tk)
+            e = a == b
+            if e != (b == a) or (a != b) == e:
+                raise AssertionError("__eq__ not symmetric / __ne__ inconsistent")
+            return f"ok {b2s(e)} {b2s((not e) or hash(a) == hash(b))}"
         if op == "reverse":
             return "ok " + show_ploc(parse_ploc(tk).reverse())
         if op == "revstrand":
